@@ -101,6 +101,10 @@ class TG:
 def r_tree(t, chain_ok=True):
     if t[0] == 'leaf':
         return t[1]
+    if t[0] == 'sh':
+        # an inner combination with text shared by all its values, in parentheses of its own: (left (a [AND] b) right)
+        _, sl, inner, sr = t
+        return '(' + (sl + ' ' if sl else '') + r_tree(inner, chain_ok) + (' ' + sr if sr else '') + ')'
     _, o, l, r = t
     ls = r_tree(l, chain_ok)
     if l[0] == 'op' and l[1] == o and chain_ok:
@@ -372,3 +376,180 @@ def priv_systematic(tg, pairs, nprops=3):
                         parts.append(('comp', prop, s, '', ('leaf', tg.word())))
                 out.append(parts)
     return out
+
+
+# ---------------------------------------------------------------- denotation: the tree a statement stands for (C01-C03)
+# in the exchange format of lib/sxp.py. Spec, not model: leaves in source order, operators as written, same-operator
+# chains left-associated, separate annotations of one component type joined by the implicit conjunction bAND
+# (left-associated), text outside an inner combination shared by every value of that combination, nothing un-annotated.
+SYM_FIELD = {'A': 'A', 'A,p': 'Ap', 'D': 'D', 'I': 'I', 'Bdir': 'Bdir', 'Bdir,p': 'Bdirp', 'Bind': 'Bind', 'Bind,p': 'Bindp', 'Cac': 'Cac', 'Cex': 'Cex',
+             'E': 'E', 'E,p': 'Ep', 'M': 'M', 'F': 'F', 'P': 'P', 'P,p': 'Pp', 'O': 'O'}
+SYM_FIELD_C = {'A,p': 'ApC', 'Bdir': 'BdirC', 'Bdir,p': 'BdirpC', 'Bind': 'BindC', 'Bind,p': 'BindpC', 'Cac': 'CacC', 'Cex': 'CexC', 'E,p': 'EpC', 'P': 'PC', 'P,p': 'PpC', 'O': 'O'}
+
+
+def _b(x):
+    return x.encode("utf-8") if isinstance(x, str) else x
+
+
+def d_tree(t):
+    """tree -> node (no component type on inner nodes)"""
+    if t[0] == 'leaf':
+        return ('L', b"", None, None, [], [], _b(t[1]), [])
+    if t[0] == 'sh':
+        n = d_tree(t[2])
+        return n[:4] + ([_b(t[1])] if t[1] else [], [_b(t[3])] if t[3] else []) + n[6:]
+    _, o, l, r = t
+    return ('C', b"", None, None, [], [], o, d_tree(l), d_tree(r))
+
+
+def d_comp(p):
+    _, sym, suf, ann, c = p
+    ann_v = _b(ann) if ann else None          # annotation text incl. brackets, as the parser stores it
+    suf_v = _b(suf) if suf else None
+    if c[0] == 'leaf':
+        return ('L', _b(sym), suf_v, ann_v, [], [], _b(c[1]), [])
+    _, sl, t, sr = c
+    n = d_tree(t)
+    return (n[0], _b(sym), suf_v, ann_v, [_b(sl)] if sl else [], [_b(sr)] if sr else []) + n[6:]
+
+
+def d_stmt(parts):
+    """flat statement (components only; nesting and pairs: see d_stmt_full) -> [(field, node)] in field order"""
+    by = {}
+    for p in parts:
+        if p[0] == 'comp':
+            f = SYM_FIELD[p[1]]
+            n = d_comp(p)
+            if f in by:
+                by[f] = ('C', _b(p[1]), None, None, [], [], 'bAND', by[f], n)
+            else:
+                by[f] = n
+    order = ["A", "Ap", "ApC", "D", "I", "Bdir", "BdirC", "Bdirp", "BdirpC", "Bind", "BindC", "Bindp", "BindpC",
+             "E", "Ep", "EpC", "M", "F", "P", "PC", "Pp", "PpC", "Cac", "CacC", "Cex", "CexC", "O"]
+    return [(f, by[f]) for f in order if f in by]
+
+
+def strip_node(n, keep_ct=True):
+    """Projection compared for C01: operator, entries, shared text, suffix, annotation; component type on the root only."""
+    if n[0] == 'L':
+        return ('L', n[1] if keep_ct else b"", n[2], n[3], [x for x in n[4] if x], [x for x in n[5] if x], n[6])
+    return ('C', n[1] if keep_ct else b"", n[2], n[3], [x for x in n[4] if x], [x for x in n[5] if x], n[6], strip_node(n[7], False), strip_node(n[8], False))
+
+
+def tree_shapes(k, ops=OPS, shared=False):
+    """All operator trees with k leaves over ops (leaves numbered by the caller)."""
+    if k == 1:
+        yield ('leaf', None)
+        return
+    for j in range(1, k):
+        for l in tree_shapes(j, ops):
+            for r in tree_shapes(k - j, ops):
+                for o in ops:
+                    yield ('op', o, l, r)
+
+
+def number_leaves(t, ctr, word=lambda i: "v%d" % i):
+    if t[0] == 'leaf':
+        ctr[0] += 1
+        return ('leaf', word(ctr[0]))
+    if t[0] == 'sh':
+        return ('sh', t[1], number_leaves(t[2], ctr, word), t[3])
+    return ('op', t[1], number_leaves(t[2], ctr, word), number_leaves(t[3], ctr, word))
+
+
+# ---------------------------------------------------------------- denotation with nesting and component pairs (C02, C03)
+ORDER = ["A", "Ap", "ApC", "D", "I", "Bdir", "BdirC", "Bdirp", "BdirpC", "Bind", "BindC", "Bindp", "BindpC",
+         "E", "Ep", "EpC", "M", "F", "P", "PC", "Pp", "PpC", "Cac", "CacC", "Cex", "CexC", "O"]
+
+
+def d_nested(p):
+    _, sym, suf, ann, st = p
+    pairs = [q for q in st if q[0] == 'pairs']
+    if pairs:
+        # a nested statement that contains a component-pair combination: the operator tree of its expanded statements
+        rest = [q for q in st if q[0] != 'pairs']
+        n = d_ptree(pairs[0][1], d_fields(rest))
+        return (n[0], _b(sym), _b(suf) if suf else None, _b(ann) if ann else None) + n[4:]
+    return ('L', _b(sym), _b(suf) if suf else None, _b(ann) if ann else None, [], [], ('T', d_fields(st)), [])
+
+
+def d_ntree(t, sym):
+    if t[0] == 'leaf':
+        return d_nested(t[1])
+    _, o, l, r = t
+    return ('C', _b(sym), None, None, [], [], o, d_ntree(l, sym), d_ntree(r, sym))
+
+
+def d_fields(parts):
+    """Fields of one statement without component pairs."""
+    by = {}
+
+    def add(f, n, ct, op):
+        if f in by:
+            by[f] = ('C', _b(ct), None, None, [], [], op, by[f], n)
+        else:
+            by[f] = n
+    for p in parts:
+        if p[0] == 'comp':
+            add(SYM_FIELD[p[1]], d_comp(p), p[1], 'bAND')
+        elif p[0] == 'nested':
+            add(SYM_FIELD_C[p[1]], d_nested(p), p[1], 'AND')
+        elif p[0] == 'ncombo':
+            add(SYM_FIELD_C[p[1]], d_ntree(p[2], p[1]), p[1], 'AND')
+    return [(f, by[f]) for f in ORDER if f in by]
+
+
+def merge_fields(group, outside):
+    """CopyComponentsFromStatement: the group's components plus every outside component (same type: implicit conjunction)."""
+    g = dict(group)
+    for f, n in outside:
+        if f in g:
+            ct = FIELD_CT.get(f, b"")
+            g[f] = ('C', ct, None, None, [], [], 'bAND', g[f], n)
+        else:
+            g[f] = n
+    return [(f, g[f]) for f in ORDER if f in g]
+
+
+FIELD_CT = {f: _b(s) for s, f in list(SYM_FIELD.items()) + list(SYM_FIELD_C.items())}
+
+
+def d_ptree(t, outside):
+    if t[0] == 'leaf':
+        return ('L', b"", None, None, [], [], ('NS', [('L', b"", None, None, [], [], ('T', merge_fields(d_fields(t[1]), outside)), [])]), [])
+    _, o, l, r = t
+    return ('C', b"", None, None, [], [], o, d_ptree(l, outside), d_ptree(r, outside))
+
+
+def d_root(parts):
+    """The root node ParseStatement delivers: a statement, or the operator tree of the expanded pair statements."""
+    pairs = [p for p in parts if p[0] == 'pairs']
+    rest = [p for p in parts if p[0] != 'pairs']
+    if not pairs:
+        return ('L', b"", None, None, [], [], ('T', d_fields(rest)), [])
+    return d_ptree(pairs[0][1], d_fields(rest))
+
+
+def holds_statements(n):
+    if n[0] == 'L':
+        return isinstance(n[6], tuple)
+    return holds_statements(n[7]) and holds_statements(n[8])
+
+
+def strip_full(n, root=True, sym=None):
+    """Projection for C02/C03: operator, entries, shared text, suffix, annotation (component type on the root of a component
+    only), descending into nested statements and node arrays. The parser stores the component symbol of a nested-statement
+    combination as left shared text of the combination node (brace-mode extraction of the prefix); that artefact is dropped."""
+    def ent(e):
+        if isinstance(e, tuple) and e[0] == 'T':
+            return ('T', [(f, strip_full(x)) for f, x in e[1]])
+        if isinstance(e, tuple) and e[0] == 'NS':
+            return ('NS', [strip_full(x) for x in e[1]])
+        return e
+    sym = n[1] if root else sym
+    if n[0] == 'L':
+        return ('L', n[1] if root else b"", n[2], n[3], [x for x in n[4] if x], [x for x in n[5] if x], ent(n[6]))
+    shl = [x for x in n[4] if x]
+    if holds_statements(n) and sym and shl == [sym]:
+        shl = []
+    return ('C', n[1] if root else b"", n[2], n[3], shl, [x for x in n[5] if x], n[6], strip_full(n[7], False, sym), strip_full(n[8], False, sym))
